@@ -220,15 +220,18 @@ def spec_term(prim: str, terms: dict):
 def equal_terms(t1, t2, n1: bool, nz=None):
     """position-wise equality; returns list of (pos, a, b) differences"""
     env = E.Env({"K": n1})
-    nz = nz or prim_normalizer()
+    nz = nz or prim_normalizer(False)
     try:
         return M.compare(t1, t2, env, nz)
     except E.ShapeError as e:
         return [("shape", str(e), "")]
 
 
-def prim_normalizer():
+def prim_normalizer(with_signs: bool = True):
+    """with_signs=False: pure equality of rational functions (clamps never fold)"""
     f = M.Facts()
+    if not with_signs:
+        return M.Normalizer(f)
 
     def positive(key):
         role, n = M._name_of(key)
